@@ -116,6 +116,11 @@ def run(tier):
             formulas = [c01.gen_bounded_formula(rnd, rnd.choice([2, 3, 4]), 4, 3) for _ in range(5)]
         cases.append(make_case(i, rnd, formulas, i % 3))
     cases.extend(deep_cases(rnd, len(cases)))
+    # a `message` key that is present but not a string (blank, number, boolean) or absent: results still need a message
+    for j, mv in enumerate([None, 404, True, "ABSENT", 1.5, []]):
+        c = make_case(len(cases), rnd, [atom(1), {"k": "or", "xs": [atom(2), atom(3)]}], 0)
+        c["messages"] = {c["formulas"][0]["fid"]: mv, c["formulas"][1]["fid"]: mv if j % 2 else "plain"}
+        cases.append(c)
     obs = vlib.run_harness("reporttree", cases, "c12", timeout=3000)
     by = {c["id"]: c for c in cases}
     lines = []
